@@ -18,11 +18,15 @@ import (
 
 	"github.com/caddyserver/caddy/v2"
 
+	"crypto/tls"
+	"io"
+
 	"github.com/mholt/caddy-l4/layer4"
 	_ "github.com/mholt/caddy-l4/modules/l4proxyprotocol"
 
 	"verif/mc/explore"
 	"verif/mc/hm"
+	"verif/mc/hm/htls"
 	"verif/mc/runner"
 	"verif/mc/vnet"
 	"verif/mc/vsched"
@@ -37,6 +41,9 @@ import (
 //	W  like F, but a non-terminal route first strips a PROXY header with the shipped
 //	   proxy_protocol handler, which continues on a wrapped connection (Connection.Wrap):
 //	   the connection handed over is the wrapped one
+//	S  a TLS client (crypto/tls over the virtual connection): a non-terminal route terminates
+//	   TLS with the real l4tls handler, the plaintext matches no further route, and the
+//	   connection handed over must read the plaintext and expose the TLS connection state
 //	U  stays undecided: matching times out
 //	E  a matcher fails with an error
 type Scn struct {
@@ -51,6 +58,7 @@ const routesJSON = `[
  {"match":[{"h_need":{"id":"mT","k":1,"pat":"T","err_on":"E"}}], "handle":[{"handler":"h_rec","id":"term","buf":7}]},
  {"match":[{"h_need":{"id":"mG","k":1,"pat":"G"}}], "handle":[{"handler":"h_consume","id":"c2","n":2}]},
  {"match":[{"h_need":{"id":"mP","k":1,"pat":"P"}}], "handle":[{"handler":"proxy_protocol"}]},
+ {"match":[{"h_need":{"id":"mS","k":1,"pat":"\u0016"}}], "handle":[{"handler":"h_tls"}]},
  {"match":[{"h_need":{"id":"mU","k":3,"pat":"UUU"}}], "handle":[{"handler":"h_rec","id":"never","buf":7}]}
 ]`
 
@@ -86,6 +94,8 @@ type accepted struct {
 	data []byte
 	err  string
 	dup  bool
+	tls  bool   // the connection exposes ConnectionState()
+	sni  string // ... and this server name
 }
 
 type result struct {
@@ -143,6 +153,10 @@ func execute(x *explore.Exec, sc *Scn) *result {
 				// the consumer answers on the connection it was given: it must still be usable
 				_, werr := c.Write(append([]byte("re:"), data...))
 				a := accepted{data: data, err: rerr.Error()}
+				if cs, ok := c.(interface{ ConnectionState() tls.ConnectionState }); ok {
+					st := cs.ConnectionState()
+					a.tls, a.sni = st.HandshakeComplete, st.ServerName
+				}
 				if werr != nil {
 					a.err += " / write: " + werr.Error()
 				}
@@ -166,6 +180,21 @@ func execute(x *explore.Exec, sc *Scn) *result {
 			res.servers = append(res.servers, sv)
 			s := stream(sc.Conns[i], i, sc.Payload)
 			vsched.Point("inject")
+			if sc.Conns[i] == 'S' {
+				// an interactive client: handshake, plaintext, close_notify, then read the reply
+				vsched.GoNamed(fmt.Sprintf("tlsclient%d", i), func() {
+					tc := tls.Client(cl, htls.ClientConfig)
+					if tc.Handshake() != nil {
+						return
+					}
+					tc.Write(s)
+					tc.CloseWrite()
+					io.Copy(io.Discard, tc)
+				})
+				inner.Inject(sv)
+				res.injected++
+				continue
+			}
 			cl.Write(s)
 			if sc.Conns[i] != 'U' {
 				cl.CloseWrite()
@@ -257,7 +286,14 @@ func check(x *explore.Exec, sc *Scn, r *result) {
 			}
 		}
 		switch kind {
-		case 'F', 'G', 'W':
+		case 'F', 'G', 'W', 'S':
+			if kind == 'S' {
+				for _, a := range r.accepted {
+					if string(a.data) == want && (!a.tls || a.sni != "verif.test") {
+						x.Fail("tls-state-not-exposed", "connection %d was handed over after TLS termination but does not expose the TLS connection state (handshake complete=%v, server name %q); %s", i, a.tls, a.sni, desc())
+					}
+				}
+			}
 			n := count[want]
 			if n > 1 {
 				x.Fail("delivered-twice", "connection %d delivered %d times; %s", i, n, desc())
@@ -309,7 +345,7 @@ func check(x *explore.Exec, sc *Scn, r *result) {
 		x.Fail("accept-error", "Accept failed with %q; %s", r.acceptErr, desc())
 	}
 	for _, b := range r.out.Blocked {
-		if !strings.HasPrefix(b, "main:") && !strings.HasPrefix(b, "consumer:") {
+		if !strings.HasPrefix(b, "main:") && !strings.HasPrefix(b, "consumer:") && !strings.HasPrefix(b, "tlsclient") {
 			x.Fail("thread-left-blocked:"+b[strings.Index(b, ":")+1:], "after Close and quiescence a wrapper thread is still blocked: %s; %s", b, desc())
 		}
 	}
@@ -340,7 +376,7 @@ func scenarios(tier string, yield0 func(any) bool) {
 			}
 		}
 	}
-	mixes = append(mixes, "FFF", "FTF", "FFT", "WFW", "WWF")
+	mixes = append(mixes, "FFF", "FTF", "FFT", "WFW", "WWF", "S", "SF", "FS", "SS", "ST", "SU")
 	for _, m := range mixes {
 		for _, cons := range []string{"eager", "late", "never"} {
 			for _, procs := range []int{1, 2} {
@@ -349,6 +385,9 @@ func scenarios(tier string, yield0 func(any) bool) {
 					closes = append(closes, k)
 				}
 				for _, cl := range closes {
+					if strings.Contains(m, "S") && (procs == 2 || cl > 1) {
+						continue
+					}
 					for _, pl := range []int{3, 9} {
 						if pl == 9 && (cl >= 0 || procs == 2) {
 							continue
@@ -380,7 +419,7 @@ func main() {
 	runner.Main(&runner.Harness{
 		ID:    "C13",
 		Level: "model_checking",
-		Rule:  "mixes of 1-2 (3 thorough) connections of kinds {terminal-route match, fall-through, fall-through after a non-terminal route consumed 2 bytes, fall-through of the wrapped connection after the shipped proxy_protocol handler stripped a PROXY header, undecided until the matching timeout, matcher error} x consumer {Accept eagerly, only after all matching ended, never} x hand-off channel capacity {1,2} x listener Close before connection k / at the end x payload {3, 9 bytes}; every interleaving of the real listener loop, handle goroutines, Accept, Close and the consumer within the joint deviation budget (delay bounding; 3 quick / 4 thorough for the mixes around a falling-through connection with channel capacity 1, one less otherwise: preemptions, select alternatives, early timers, pool misses, short reads); the buffer pool is a deterministic LIFO so that reuse of a just-returned buffer is the default",
+		Rule:  "mixes of 1-2 (3 thorough) connections of kinds {terminal-route match, fall-through, fall-through after a non-terminal route consumed 2 bytes, fall-through of the wrapped connection after the shipped proxy_protocol handler stripped a PROXY header, fall-through after TLS termination by the real l4tls handler with a crypto/tls client (plaintext and exposed TLS state), undecided until the matching timeout, matcher error} x consumer {Accept eagerly, only after all matching ended, never} x hand-off channel capacity {1,2} x listener Close before connection k / at the end x payload {3, 9 bytes}; every interleaving of the real listener loop, handle goroutines, Accept, Close and the consumer within the joint deviation budget (delay bounding; 3 quick / 4 thorough for the mixes around a falling-through connection with channel capacity 1, one less otherwise: preemptions, select alternatives, early timers, pool misses, short reads); the buffer pool is a deterministic LIFO so that reuse of a just-returned buffer is the default",
 		Assumptions: []string{
 			"the code under test is /repo's working tree mechanically redirected to the scheduler (tools/gomcrw); sync.Pool is replaced by a deterministic LIFO pool",
 			"TLS-terminated fall-through is covered by C01's TLS chains and the tlsConnection wrapper is not exercised here",
@@ -406,6 +445,13 @@ func main() {
 			}
 			if tier != "thorough" && len(sc.Conns) > 1 {
 				ex.Bounds[explore.KTime] = 1
+			}
+			if strings.Contains(sc.Conns, "S") {
+				// a TLS handshake is ~100 scheduling points per execution
+				ex.Total = 1
+				if tier == "thorough" {
+					ex.Total = 2
+				}
 			}
 			ex.Stop = rep.Expired
 			vsched.StateSink = rep.State
